@@ -40,7 +40,7 @@ def run(tier):
     if tier == "quick":
         scs = [dict(scenario="c03h", p=2, m=2, bound=2, glib=1), dict(scenario="c03h", p=2, m=1, bound=2, glib=0), dict(scenario="c03h", p=3, m=1, bound=1, glib=1, _shards=16),
                dict(scenario="c03g", p=2, m=2, bound=1, glib=1, _shards=16), dict(scenario="c03g", p=1, m=4, bound=2, glib=0), dict(scenario="c03h", p=1, m=4, bound=2, glib=1)]
-        dl = 150
+        dl = 400
         scs += nested_and_stop(tier)
     else:
         scs = [dict(scenario="c03h", p=2, m=2, bound=3, glib=1), dict(scenario="c03h", p=2, m=2, bound=2, glib=0), dict(scenario="c03h", p=3, m=1, bound=2, glib=1), dict(scenario="c03h", p=2, m=3, bound=2, glib=1),
